@@ -17,7 +17,7 @@ META = dict(
                 'Numbers (z3x): the current source of parse_decimal is re-executed on z3 terms - the decimal text str() prints for a double (sign, integer digits, fraction digits, no trailing zero) is symbolic, int()/float()/len()/split() are term-building shims, '
                 'int/int division, float() and + are IEEE binary64 operations - and z3 decides whether the result can differ (value or sign) from the correctly rounded value of that text; exponent forms must take the float() fall-back. '
                 'parse_int on symbolic digit strings. File form: dump_to_file / load_from_file over a file object whose read() stops short at solver-chosen positions (a chunk boundary anywhere, including inside a quoted field).',
-    bounds=dict(quick='strings: <= 3 characters in total over <= 3 fields; ints from {-20,0,7,None}; decimals: |integer part| < 1000, 1..4 fraction digits (all such doubles as printed by str()); file form: 2 rows with one symbolic character, 1 short read at every position of the file (one obligation each)',
+    bounds=dict(quick='strings: <= 3 characters in total over <= 3 fields; ints from {-20,0,7,None}; decimals: |integer part| < 1000, 1..4 fraction digits (all such doubles as printed by str()); file form: 2 rows with one symbolic character, short reads at c1 and c1+1 for every position c1 of the file (one obligation each): a one-character chunk follows a partial line',
                 thorough='strings: <= 4 characters; decimals: integer part < 10^6, 1..6 fraction digits; cvc5 cross-check of every z3x query'),
     outside='str(float) itself and float(str) (C code: modelled as correctly rounded, which is their documented contract); floats printed in exponent form beyond the fall-back check; more columns / longer strings than the bound; custom newline',
     assumptions=['float(text) is the correctly rounded binary64 value of the decimal text (CPython contract)', 'file objects may return short reads (ShortReadFile contract stub, validated with a real 200 KiB file)'],
@@ -129,7 +129,7 @@ def file_form(p):
         text = wb.value()
         if done != ['C']:
             return fail(stage='dump_to_file', done=done)
-        f = shortread.ShortReadFile(text, [c1])     # a cut beyond the end of the text is simply never hit
+        f = shortread.ShortReadFile(text, [c1, c1 + 1])     # two short reads: ...c1 | one character | rest; a cut beyond the end of the text is never hit
         out = []
         csv.load_from_file(f, csv.create_line_parser(dtype=dtype, separator=sep, escapechar=esc)).subscribe(
             on_next=lambda r: out.append(tuple(r)), on_error=lambda e: out.append(('ERR', type(e).__name__, str(e)[:120])), scheduler=ImmediateScheduler())
